@@ -127,7 +127,21 @@ func newFarmEnv(fl *drv.Flags, wired bool) *farmEnv {
 		e.govGenesis(c, gs)
 	}
 	e.opts = opts
-	e.c = chain.New(opts)
+	func() {
+		// should /repo one day provide the hooks and the route itself, the extra
+		// providers collide (depinject refuses a second provider): build without them
+		defer func() {
+			if r := recover(); r != nil && opts.ExtraConfig != nil {
+				fmt.Fprintln(os.Stderr, "farm harness: building without the extra gov wiring:", r)
+				opts.ExtraConfig = nil
+				e.opts = opts
+				e.c = chain.New(opts)
+			} else if r != nil {
+				panic(r)
+			}
+		}()
+		e.c = chain.New(opts)
+	}()
 	c := e.c
 	for _, n := range append(append([]string{"lpsrc"}, e.users...), e.proposers...) {
 		e.names[c.Accts[n].Addr.String()] = n
